@@ -56,13 +56,8 @@ def run(res, tier, only_case=None):
     impl = vlib.ensure_harness("zh_c13", "asan")
     wd = vlib.scratch("C13")
     mo, _ = vlib.run_cases(model, lines, wd, "model")
-    io, ierr = vlib.run_cases(impl, lines, wd, "impl", env={"ZH_TMP": wd})
-    # a crash hides the remaining cases: rerun them one by one
-    if any(x in ("MEMFAULT", "HANG") or x.startswith("DIED") for x in io):
-        io = []
-        for l in lines:
-            o, _ = vlib.run_cases(impl, [l], wd, "impl1", env={"ZH_TMP": wd}, timeout=60)
-            io.append(o[0])
+    # a crash or a watchdog exit hides the remaining cases: the resilient runner restarts behind the offending line
+    io, ierr = vlib.run_cases_resilient(impl, lines, wd, "impl", env={"ZH_TMP": wd}, max_restarts=40)
     for (tag, f), line, i, m in zip(files, lines, io, mo):
         res.evaluations += 1
         res.count(tag.split("=")[0].split("@")[0].split(":")[0] + (":OK" if i.startswith("OK") else ":" + i.split()[0]))
